@@ -165,6 +165,8 @@ void CommonLoop::resetStat()
 
 void CommonLoop::cleanup()
 {
+    //! other threads may be inside runInLoop(): the cross-thread queue is only touched under lock_
+    std::lock_guard<std::recursive_mutex> g(lock_);
     cleanupDeferredTasks();
 }
 
